@@ -11,6 +11,7 @@ MCW_ColVals == [o |-> {0, 1, 2}, x |-> {1, 2}, y |-> {NULL, 2}]
 MC5_TabCols == [t1 |-> <<"x", "y">>]
 MC5_ColVals == [x |-> {NULL, 0 - 2, 0, 1, 3}, y |-> {NULL, 0 - 1, 0, 2}]
 MC5I_ColVals == [x |-> {NULL, PINF, NINF, 1}, y |-> {NULL, 0, 2}]
+MCB2_TabCols == [t1 |-> <<"o", "x", "y">>, t2 |-> <<"o", "x", "y">>]
 MC1_TabCols == [t1 |-> <<"g", "o", "x">>]
 MCJ_TabCols == [t1 |-> <<"g", "x">>, t2 |-> <<"g", "x", "y">>]
 MCJ_ColVals == [g |-> {NULL, 0, 1}, x |-> {NULL, 1}, y |-> {NULL, 1}]
